@@ -352,11 +352,11 @@ def _ckd_event(inp, tab, ev):
     rn = W.ckd(tab, rpar, i, prf)
     ref_strings(tab, rn)
     par = py_node(inp["par"])
-    ev["par_before"] = {"node": node_json(par), "nch": len(par.children)}
+    ev["par_before"] = {"node": node_json(par), "nch": len(getattr(par, "children", ()))}
     with PrfTap(prf) as tap:
         ok, v = call(par.ckd, i)
     ev["q"] = queries_json(tap)
-    ev["par_after"] = {"node": node_json(par), "nch": len(par.children) - (1 if ok else 0)}
+    ev["par_after"] = {"node": node_json(par), "nch": len(getattr(par, "children", ())) - (1 if ok else 0)}
     if inp.get("drop"):
         # the caller keeps ONLY the child (e.g. PrvKeyNode.parse(xprv).ckd(i)): the parent object is gone
         # before anything is printed for the child
@@ -688,12 +688,23 @@ def Hash(inp, tab, ev):
     def le(x):
         return B(x.to_bytes(max(1, (x.bit_length() + 7) // 8), "little")) if x >= 0 else [-1]
 
-    def tapped(h0, h1, h2, h3, h4, block):
-        out = real(h0, h1, h2, h3, h4, block)
-        calls.append({"sin": [le(x) for x in (h0, h1, h2, h3, h4)], "block": B(block), "sout": [le(x) for x in out]})
+    observable = [True]
+
+    def tapped(*a, **kw):
+        out = real(*a, **kw)
+        # recorded only when the call has the shape the shell specification describes (five state words and a
+        # 64-byte block in, five words out); any other internal layout is simply not observed
+        try:
+            if kw or len(a) != 6 or not all(isinstance(x, int) for x in a[:5]) or len(bytes(a[5])) != 64 or len(out) != 5:
+                raise ValueError
+            calls.append({"sin": [le(x) for x in a[:5]], "block": B(bytes(a[5])), "sout": [le(x) for x in out]})
+        except Exception:
+            observable[0] = False
         return out
-    if real is not None:
+    if callable(real):
         ripemd.compress = tapped
+    else:
+        real = None
     try:
         ok, v = call(lambda: {"rip": B(ripemd.ripemd160(msg))})
         ncalls = len(calls)
@@ -706,7 +717,7 @@ def Hash(inp, tab, ev):
     finally:
         if real is not None:
             ripemd.compress = real
-    ev["calls"] = calls[:ncalls] if ok else []
+    ev["calls"] = calls[:ncalls] if (ok and observable[0]) else []
     ev["res"] = res_of(ok, v)
 
 
